@@ -177,7 +177,7 @@ pub fn comment_start(input: &mut LineReader) -> Parsed<(), ParseError> {
     }
 }
 
-pub fn comment_body<'a>(input: &'a mut LineReader) -> &'a BStr {
+pub fn comment_body<'a>(input: &'a mut LineReader) -> Result<&'a BStr, ParseError> {
     let mut offset = 0;
 
     while !matches!(
@@ -187,7 +187,12 @@ pub fn comment_body<'a>(input: &'a mut LineReader) -> &'a BStr {
         offset += 1;
     }
 
-    input.reader.advance_with_buf(offset).into()
+    if input.reader.request_byte_at_offset(offset).is_none() {
+        // The comment runs to the end of the available data, make sure that is the end of the input
+        input.reader.check_io_error()?;
+    }
+
+    Ok(input.reader.advance_with_buf(offset).into())
 }
 
 #[inline]
